@@ -198,6 +198,19 @@ class SortedListT(List):
         List.__init__(self, t, sorted_key=key)
 
 
+class Arr(T):
+    """numpy ndarray of concrete shape (bounded mode only); shape fixed here or by the unit's shape dict"""
+
+    kind = "arr"
+
+    def __init__(self, t, shape=None):
+        self.t = t
+        self.shape = shape
+
+    def __repr__(self):
+        return "Arr(%r,%r)" % (self.t, self.shape)
+
+
 class Rec(T):
     """dict with a fixed set of literal keys (a record)"""
 
@@ -209,6 +222,20 @@ class Rec(T):
 
     def __repr__(self):
         return "Rec(%s)" % ", ".join("%s=%r" % kv for kv in self.fields.items())
+
+
+class ADict(T):
+    """dict with symbolic scalar keys and a concrete number of entries (bounded mode)"""
+
+    kind = "adict"
+
+    def __init__(self, k, v, size=None):
+        self.k = k
+        self.v = v
+        self.size = size
+
+    def __repr__(self):
+        return "ADict(%r,%r)" % (self.k, self.v)
 
 
 class Map(T):
